@@ -72,7 +72,15 @@ def gen_outs(rng, big=False):
         elif big:
             old = [rng.range(1, 6) * 1024 * 1024 + rng.below(999), rng.choice(MODES)]
         else:
-            old = [rng.choice(SIZES[1:]), rng.choice(MODES)]
+            # a zero-length previous file only under a non-empty new one (the two must be distinguishable)
+            old = [rng.choice(SIZES if size > 0 else SIZES[1:]), rng.choice(MODES)]
+        if old:
+            # unusual previous files an implementation might special-case: a second hard link (cargo / ccache-style
+            # linked artefacts), a symbolic link to a file elsewhere, a private (0700) directory; read-only (0444)
+            # previous files come from MODES, smaller / larger / empty ones from SIZES
+            shape = rng.weighted([(b'plain', 11), (b'hardlink', 5), (b'symlink', 3), (b'dir700', 2)])
+            if shape != b'plain':
+                old = old + [shape]
         outs.append([d, names[i], size, rng.choice(MODES), 1 if rng.chance(1, 5) else 0, old, b'none'])
     kind = rng.weighted([('none', 8), ('corrupt', 9), ('no_dir', 1), ('old_dir', 1)])
     if kind == 'corrupt':
@@ -119,9 +127,19 @@ def _bad_out(out):
         or (isinstance(out[0], bytes) and out[0].startswith(b'(harness_died'))
 
 
-def check_finals(outs, result, fin, left):
+def check_finals(outs, result, fin, left, alias=None):
     """The property's statement about the state a request leaves behind."""
     vs = []
+    if alias is not None:
+        if not isinstance(alias, list) or len(alias) != 2:
+            vs.append('malformed alias observation')
+        else:
+            if alias[0]:
+                vs.append('%d other name(s) of a previous output (second hard link / symlink target) no longer hold its complete '
+                          'previous contents: the previous inode was written' % alias[0])
+            if alias[1]:
+                vs.append('%d output(s) were rewritten IN PLACE (the new contents sit in the inode the path named before, so every '
+                          'holder of the previous file saw it change) instead of being replaced by rename' % alias[1])
     if not isinstance(fin, list) or len(fin) != len(outs):
         return ['malformed final state']
     for o, f in zip(outs, fin):
@@ -141,10 +159,10 @@ def check_finals(outs, result, fin, left):
 
 
 def monitor_strace(case, out):
-    if _bad_out(out) or len(out) < 5:
+    if _bad_out(out) or len(out) < 6:
         return ['no observation: %r' % (out,)]
     outs = case[1]
-    result, canon, fin, left, raw = out[:5]
+    result, canon, fin, left, alias, raw = out[:6]
     _OBS.append((case, out))
     vs = []
     paths = set(o[0] + b'/' + o[1] for o in outs)
@@ -165,21 +183,21 @@ def monitor_strace(case, out):
                 vs.append('chmod of a path that is not an output: %r' % (e,))
         else:
             vs.append('output path touched other than by rename from a temp file: %s' % sx.dumps(e))
-    vs += check_finals(outs, result, fin, left)
+    vs += check_finals(outs, result, fin, left, alias)
     return vs
 
 
 def monitor_live(case, out):
-    if _bad_out(out) or len(out) < 5:
+    if _bad_out(out) or len(out) < 6:
         return ['no observation: %r' % (out,)]
-    result, torn, hbad, fin, left = out[:5]
+    result, torn, hbad, fin, left, alias = out[:6]
     vs = []
-    detail = out[5][4].decode('utf-8', 'replace') if len(out) > 5 and len(out[5]) > 4 else ''
+    detail = out[6][4].decode('utf-8', 'replace') if len(out) > 6 and len(out[6]) > 4 else ''
     if torn:
         vs.append('%d read(s) of an output path during the request returned neither the complete old nor the complete new contents (%s)' % (torn, detail))
     if hbad:
         vs.append('%d read(s) through a descriptor opened before the request did not return the complete old contents (%s)' % (hbad, detail))
-    vs += check_finals(case[1], result, fin, left)
+    vs += check_finals(case[1], result, fin, left, alias)
     return vs
 
 
@@ -203,10 +221,16 @@ def stats_strace(case, out):
     for o in case[1]:
         ks.append('fault=' + o[6].decode())
         ks.append('old=' + ('none' if o[5] == [] else 'dir' if o[5] == b'dir' else 'file'))
+        if isinstance(o[5], list) and len(o[5]) == 3:
+            ks.append('old_shape=' + o[5][2].decode())
+        if isinstance(o[5], list) and len(o[5]) >= 2:
+            ks.append('old_size_vs_new=' + ('empty' if o[5][0] == 0 else 'smaller' if o[5][0] < o[2] else 'larger' if o[5][0] > o[2] else 'equal'))
+            if o[5][1] == 0o444:
+                ks.append('old_read_only')
         ks.append('size<=%d' % next(s for s in SIZES if o[2] <= s))
         if o[4]:
             ks.append('optional')
-    if not _bad_out(out) and len(out) >= 5:
+    if not _bad_out(out) and len(out) >= 6:
         ks.append('result=' + out[0].decode())
         prev = None
         for e in out[1]:
@@ -215,15 +239,18 @@ def stats_strace(case, out):
             prev = e
         for f in out[2]:
             ks.append('final=' + f[1].decode())
-        ks.append('writes<=%d' % min(64, 1 << max(0, len([e for e in out[4] if e[0] == b'write'])).bit_length()))
+        ks.append('writes<=%d' % min(64, 1 << max(0, len([e for e in out[5] if e[0] == b'write'])).bit_length()))
     return ks
 
 
 def stats_live(case, out):
     ks = ['outputs=%d' % len(case[1]), 'observers=%d' % len(case[2])]
-    if not _bad_out(out) and len(out) >= 6:
+    for o in case[1]:
+        if isinstance(o[5], list) and len(o[5]) == 3:
+            ks.append('old_shape=' + o[5][2].decode())
+    if not _bad_out(out) and len(out) >= 7:
         ks.append('result=' + out[0].decode())
-        reads, so, sn, hreads = out[5][:4]
+        reads, so, sn, hreads = out[6][:4]
         if so and sn:
             ks.append('pollers_saw_both_old_and_new')
         if hreads:
@@ -250,6 +277,8 @@ def shrink(case):
     for i, o in enumerate(outs):
         if o[6] != b'none':
             yield [case[0], outs[:i] + [o[:6] + [b'none']] + outs[i + 1:]] + rest
+        if isinstance(o[5], list) and len(o[5]) == 3:
+            yield [case[0], outs[:i] + [o[:5] + [o[5][:2]] + o[6:]] + outs[i + 1:]] + rest
         if o[5] != [] and o[5] != b'dir':
             yield [case[0], outs[:i] + [o[:5] + [[]] + o[6:]] + outs[i + 1:]] + rest
         if o[2] > 100:
@@ -266,7 +295,7 @@ def neighbours(case):
     for i, o in enumerate(outs):
         for f in FAULTS + [b'none']:
             for opt in (0, 1):
-                for old in ([], [777, 0o644]):
+                for old in ([], [777, 0o644], [777, 0o644, b'hardlink'], [777, 0o444, b'symlink']):
                     yield [case[0], outs[:i] + [o[:4] + [opt, old, f]] + outs[i + 1:]] + rest
 
 
@@ -303,14 +332,14 @@ def legs(tier):
 def _legs(tier):
     return [
         Leg('strace', gen_strace, monitor=monitor_strace, nontrivial=nontrivial, shrink=shrink, neighbours=neighbours,
-            stats=stats_strace, compare=compare_drop(4),
+            stats=stats_strace, compare=compare_drop(5),
             rule='PRNG cases of 1-4 outputs in 1-2 directories, sizes 0..300000 around the 8 KiB copy buffer, 4 modes, '
-                 'optional members (absent: skipped; stored but unreadable: the extraction fails), old file present/absent/a directory, missing output directory, one (sometimes two) '
+                 'optional members (absent: skipped; stored but unreadable: the extraction fails), old file present/absent/a directory/with a second hard link/a symlink to a file elsewhere/in a 0700 directory/read-only/empty/smaller/larger, missing output directory, one (sometimes two) '
                  'damaged members (missing / first, middle, last byte of the stored zstd stream flipped) at the 2nd, last '
                  'or a random position; non-trivial = an existing file is replaced or a member fails; distinct by case text'),
         Leg('live', gen_live, monitor=monitor_live, nontrivial=nontrivial, shrink=shrink,
-            stats=stats_live, compare=compare_drop(5), shards=8,
-            rule='PRNG cases with outputs of 2-8 MiB over old files of 1-6 MiB, 2-5 observers (polling readers, holders of '
+            stats=stats_live, compare=compare_drop(6), shards=8,
+            rule='PRNG cases with outputs of 2-8 MiB over old files of 1-6 MiB (a third of them hard-linked or symlinked), 2-5 observers (polling readers, holders of '
                  'a descriptor opened before), damaged last/2nd member in half of them; model side: the extracted scheduler '
                  'on a PRNG schedule of up to 70 steps with 1-5 chunks per member'),
     ]
@@ -331,7 +360,7 @@ def extra(rep, known):
             continue
         seen.add(key)
         cases.append(case)
-        lines.append(sx.dumps([case[0], case[1], out[:5]]))
+        lines.append(sx.dumps([case[0], case[1], out[:4] + [out[5]]]))
     res = pipeline.run_sharded([os.path.join(pipeline.BUILD, 'modelrun-' + ID), 'accept'], lines)
     names = ['observed calls are a trace of the model', 'no call outside the model\'s alphabet', 'bytes written to each '
              'renamed temp file = size of the member', 'result agrees', 'final state agrees', 'every output whole',
